@@ -550,6 +550,13 @@ class SampleList(SampleListBase):
                 fname = _sample_file_name(file_name_base, isample)
                 _save_to_disk(fname, obj, overwrite)
 
+        # A mean file left over from a `ResidualSampleList` that was saved
+        # under the same name before would make this list look like one
+        if overwrite:
+            with ensure_all_tasks_succeed(self.comm):
+                if self.MPI_master:
+                    pathlib.Path(f"{file_name_base}.mean.pickle").unlink(missing_ok=True)
+
     @classmethod
     def load(cls, file_name_base, comm=None):
         from ..logger import logger
